@@ -104,11 +104,6 @@ contract("JobSubmitter.generate_reports", kind="assumed", params=[("directory", 
          note="runs the jade report commands; failures are only logged")
 opaque_global("RESULTS_FILE", "EVENT_CATEGORY_RESOURCE_UTIL", "EVENT_NAME_BYTES_CONSUMED", "EVENT_NAME_SUBMIT_COMPLETED")
 opaque_fn("get_directory_size_bytes", "os.path.dirname")
-contract("StructuredLogEvent", kind="assumed", pure=True, note="heap-independent",
-         params=[("source", "Opaque"), ("category", "Opaque"), ("name", "Opaque"), ("message", "Opaque"),
-                 ("batch_size", "Opaque", "None"), ("per_node_batch_size", "Opaque", "None"), ("job_id", "Opaque", "None"),
-                 ("bytes_consumed", "Opaque", "None"), ("num_jobs", "Opaque", "None")],
-         returns="Opaque")
 
 # Cluster.mark_complete also enters the event log (ghost bookkeeping on the verified contract)
 _mc2 = contract.__globals__["CONTRACTS"]["Cluster.mark_complete"]
@@ -118,6 +113,9 @@ _mc2.defs.update({})
 
 define("HC_N", ["s"], "len(s._config.g_joblist)")
 define("ALLNAMES", ["s"], "nameset(s._config.g_joblist)")
+HANDLE_OK = "not ghost.cluster_lock and Inv_handle(cluster) and cluster.g_promoted"
+# after an exception the handle may be out of sync with the disk (a write failed half way), but it is still THE promoted handle and holds no lock
+HANDLE_EXC = "not ghost.cluster_lock and cluster.g_promoted and cluster._config.submitter == cluster._hostname and paths_distinct(cluster)"
 contract("JobSubmitter._handle_completion", file=F,
          params=[("self", "Ref[JobSubmitter]"), ("cluster", "Ref[Cluster]")], returns="Enum[Status]",
          locals={"missing_jobs": "List[Name]", "env": "Dict[Name,Opaque]"},
@@ -141,8 +139,10 @@ contract("JobSubmitter._handle_completion", file=F,
              "+ (0 if isnone(cluster._config.pipeline_stage_num) else 1)",
              "cluster._config.is_complete and cfg_mirrored(cluster)",
              "forall(i, range(old(len(ghost.log))), ghost.log[i] == old(ghost.log)[i])",
+             HANDLE_OK,
          ],
-         raises={"Timeout": {"ensures": [], "frame": False}, "ConfigVersionMismatch": {"ensures": [], "frame": False}},
+         # whatever happens, the caller still holds a well-formed promoted handle and no lock: it can (and must) give the role back
+         raises={"Timeout": {"ensures": [HANDLE_EXC], "frame": False}, "ConfigVersionMismatch": {"ensures": [HANDLE_EXC], "frame": False}},
          modifies=["self._results", "ghost.log", "ghost.summary_missing", "ghost.last_env", "ghost.execs", "ghost.last_ret",
                    "Result.name", "Result.return_code", "Result.status", "Result.exec_time_s", "Result.completion_time", "Result.hpc_job_id"]
                   + [m.replace("self.", "cluster.") for m in _mc2.modifies if m != "ghost.log"])
@@ -171,7 +171,7 @@ contract("JobSubmitter._submit_to_hpc", kind="assumed", params=[("self", "Ref[Jo
                   "implies(old(subset(ghost.collected, ghost.universe)), subset(ghost.collected, ghost.universe))",      # E-res
                   "Inv_handle(cluster) and cluster.g_promoted", "implies(result, not cluster._config.is_complete)",
                   "cluster._config.pipeline_stage_num == old(cluster._config.pipeline_stage_num)"],
-         raises={"Exception": {"ensures": ["ghost.log == old(ghost.log) and ghost.setup_n == old(ghost.setup_n)"]}},
+         raises={"Exception": {"ensures": ["ghost.log == old(ghost.log) and ghost.setup_n == old(ghost.setup_n)", HANDLE_EXC]}},     # HpcSubmitter.run: proved (RUN_HANDLE_OK)
          modifies=["ghost.runs", "ghost.collected", "ghost.collected_failed", "ghost.files", "ghost.vfiles", "ghost.file_writes", "ghost.fs", "ghost.cluster_lock",
                    "ghost.lock_marker_left", "ghost.sbatch_n", "Job.state", "Job.blocked_by", "JobStatus.hpc_job_ids", "JobStatus.batch_index", "JobStatus.version",
                    "ClusterConfig.submitted_jobs", "ClusterConfig.completed_jobs", "ClusterConfig.version", "cluster._config_hash", "cluster._job_status_hash"],
@@ -208,10 +208,12 @@ contract("JobSubmitter.submit_jobs", file=F,
              "implies(self._is_new and not isnone(self._config._setup_command), ghost.last_setup_env_ok)" if False else "True",
              # C05: the submission is completed (summary, teardown, flag) only through _handle_completion, at most once per call
              "implies(result == Status.IN_PROGRESS, ghost.log == old(ghost.log) or self._hpc_is_local())" if False else "True",
+             HANDLE_OK,        # C10: the caller still holds a well-formed promoted handle and no lock - it can give the role back
          ],
-         raises={"ExecutionError": {"ensures": ["ghost.runs == old(ghost.runs) or not (self._is_new and not isnone(self._config._setup_command)) or ghost.setup_runs_seen == old(ghost.runs)"],
-                                    "frame": False},
-                 "Exception": {"ensures": [], "frame": False}},
+         raises={"ExecutionError": {"ensures": ["ghost.runs == old(ghost.runs) or not (self._is_new and not isnone(self._config._setup_command)) or ghost.setup_runs_seen == old(ghost.runs)",
+                                                HANDLE_EXC], "frame": False},
+                 "Exception": {"ensures": [HANDLE_EXC], "frame": False},
+                 "Timeout": {"ensures": [HANDLE_EXC], "frame": False}, "ConfigVersionMismatch": {"ensures": [HANDLE_EXC], "frame": False}},
          modifies=["self._hpc", "self._results"] + [m for m in _C["JobSubmitter._handle_completion"].modifies if not m.startswith("self.")]
                   + ["ghost.setup_n", "ghost.setup_runs_seen", "ghost.last_cmd", "ghost.runs", "ghost.collected", "ghost.collected_failed", "ghost.files", "ghost.vfiles",
                      "ghost.file_writes", "ghost.fs", "ghost.sbatch_n", "ghost.popens", "ghost.rows", "Job.state", "Job.blocked_by", "JobStatus.hpc_job_ids",
